@@ -23,26 +23,73 @@ def main_loop(fn: ast.FunctionDef) -> ast.For:
     return loops[0]
 
 
-def kind_arms(loop_or_fn: ast.AST) -> dict:
-    """{'T': [stmts], ...} for `if kind == 'X': ... elif ...` chains and for
-    sequences of `if kind == 'X': ...; continue/return` in a body"""
-    arms: dict = {}
+def _chain_has_kind_test(n: ast.If) -> bool:
+    while True:
+        t = n.test
+        if isinstance(t, ast.Compare) and isinstance(t.left, ast.Name) and t.left.id == "kind":
+            return True
+        if len(n.orelse) == 1 and isinstance(n.orelse[0], ast.If):
+            n = n.orelse[0]
+        else:
+            return False
 
-    def test_kind(t: ast.AST):
-        if isinstance(t, ast.Compare) and len(t.ops) == 1 and isinstance(t.ops[0], ast.Eq) \
-                and isinstance(t.left, ast.Name) and t.left.id == "kind" \
-                and isinstance(t.comparators[0], ast.Constant) and isinstance(t.comparators[0].value, str):
-            return t.comparators[0].value
-        return None
+
+def scopes_of(ctx, node: ast.AST) -> list:
+    """statement lists of the functions enclosing `node` (innermost first) and of its module"""
+    for m in ctx.index.modules.values():
+        if node in m.parents or node is m.tree:
+            out = []
+            n = node
+            if isinstance(n, (ast.FunctionDef, ast.AsyncFunctionDef)):
+                out.append(n.body)
+            while n in m.parents:
+                n = m.parents[n]
+                if isinstance(n, (ast.FunctionDef, ast.AsyncFunctionDef)):
+                    out.append(n.body)
+            out.append(m.tree.body)
+            return out
+    return []
+
+
+def kind_arms(loop_or_fn: ast.AST, scopes: list = None, ctx=None) -> dict:
+    """{'T': [stmts], ...} for `if kind == 'X': ... elif ...` chains and for
+    sequences of `if kind == 'X': ...; continue/return` in a body.  An arm shared by several kinds
+    (`elif kind in ("L", "E"):`, `elif kind in link_kinds:` with a table defined in an enclosing scope)
+    is specialised per kind (core/special.py); `scopes` are the statement lists in which such tables
+    are looked up (innermost first)."""
+    from ..core.special import find_table, specialise, table_keys
+
+    arms: dict = {}
+    scopes = list(scopes or [])
+    if not scopes and ctx is not None:
+        scopes = scopes_of(ctx, loop_or_fn)
+
+    def test_kinds(t: ast.AST):
+        if isinstance(t, ast.Compare) and len(t.ops) == 1 and isinstance(t.left, ast.Name) and t.left.id == "kind":
+            rhs = t.comparators[0]
+            if isinstance(t.ops[0], ast.Eq) and isinstance(rhs, ast.Constant) and isinstance(rhs.value, str):
+                return [rhs.value], False
+            if isinstance(t.ops[0], ast.In):
+                tbl = find_table(rhs.id, scopes) if isinstance(rhs, ast.Name) else rhs
+                keys = table_keys(tbl) if tbl is not None else None
+                if keys and all(isinstance(k, ast.Constant) and isinstance(k.value, str) for k in keys):
+                    return [k.value for k in keys], True
+        return None, False
 
     def visit_if(n: ast.If):
-        k = test_kind(n.test)
-        if k is not None:
-            arms.setdefault(k, n.body)
+        ks, shared = test_kinds(n.test)
+        if ks is not None:
+            for k in ks:
+                body = specialise(n.body, "kind", repr(k), scopes, same_key=lambda x, k=k: isinstance(x, ast.Constant) and x.value == k) \
+                    if (shared or len(ks) > 1) else n.body
+                arms.setdefault(k, body)
             if len(n.orelse) == 1 and isinstance(n.orelse[0], ast.If):
                 visit_if(n.orelse[0])
             elif n.orelse:
                 arms.setdefault("%else", n.orelse)
+        elif len(n.orelse) == 1 and isinstance(n.orelse[0], ast.If) and _chain_has_kind_test(n.orelse[0]):
+            # a guard arm (`if nowiki: ...`) in front of the kind dispatch of one if/elif chain
+            visit_if(n.orelse[0])
 
     body = loop_or_fn.body
     for st in body:
@@ -51,10 +98,43 @@ def kind_arms(loop_or_fn: ast.AST) -> dict:
     return arms
 
 
+def expand_shared_arms(node: ast.AST, ctx) -> ast.AST:
+    """deep copy of `node` in which every `if/elif kind in TABLE:` arm is replaced by one specialised
+    `elif kind == K:` arm per key, so that whole-loop scans see the one-arm-per-kind shape"""
+    import copy
+
+    from ..core.special import find_table, specialise, table_keys
+
+    scopes = scopes_of(ctx, node)
+    new = copy.deepcopy(node)
+
+    class T(ast.NodeTransformer):
+        def visit_If(self, n):
+            self.generic_visit(n)
+            t = n.test
+            if isinstance(t, ast.Compare) and len(t.ops) == 1 and isinstance(t.ops[0], ast.In) and isinstance(t.left, ast.Name) and t.left.id == "kind":
+                rhs = t.comparators[0]
+                tbl = find_table(rhs.id, scopes) if isinstance(rhs, ast.Name) else rhs
+                keys = table_keys(tbl) if tbl is not None else None
+                if keys and all(isinstance(k, ast.Constant) and isinstance(k.value, str) for k in keys):
+                    tail = n.orelse
+                    for k in reversed(keys):
+                        body = specialise(n.body, "kind", repr(k.value), scopes, same_key=lambda x, kv=k.value: isinstance(x, ast.Constant) and x.value == kv)
+                        arm = ast.If(test=ast.Compare(left=ast.Name(id="kind", ctx=ast.Load()), ops=[ast.Eq()], comparators=[ast.Constant(value=k.value)]),
+                                     body=body or [ast.Pass()], orelse=tail)
+                        ast.copy_location(arm, n)
+                        ast.fix_missing_locations(arm)
+                        tail = [arm]
+                    return tail[0]
+            return n
+
+    return T().visit(new)
+
+
 def template_branch(ctx) -> list:
     fn = ctx.fn(RECURSE)
     lp = main_loop(fn)
-    arms = kind_arms(lp)
+    arms = kind_arms(lp, ctx=ctx)
     if "T" not in arms:
         raise AnalysisError("expand_recurse: `kind == 'T'` branch not found")
     return arms["T"]
